@@ -51,7 +51,7 @@ def main():
     s = open(p).read()
     a = s.index("### 7.5 / 7.6")
     b = s.index("## 8. Measured cost")
-    body = ("### 7.5 Seeded changes from independent sub-agents (three waves of 20, 60 changes)\n\n"
+    body = ("### 7.5 Seeded changes from independent sub-agents (four waves of 20, 80 changes)\n\n"
             "Every change below compiles, leaves the repository suite at its baseline, and comes with a demonstration that "
             "passes without and fails with it (`seeded/<name>/`). The second and third wave were told what the earlier waves had done "
             "and asked for a different mechanism in a different clause of the property.\n\n" + seeded_table() +
